@@ -154,6 +154,19 @@ func (e *Engine) GenVCs(fn *ssa.Function, fc *FuncContract) (res *FuncResult) {
 	}
 	fr.entry = st.clone()
 	res.EntryPC = st.pc
+	if fc != nil {
+		for _, g := range fc.Guarded {
+			sc := &specScope{x: x, fr: fr, st: st, old: st}
+			key := x.mutexKey(x.evalSpec(sc, g.Lock))
+			for _, oe := range g.Objs {
+				ov := x.evalSpec(sc, oe)
+				_, isMap := ov.T.Underlying().(*types.Map)
+				for _, r := range x.refsOf(ov) {
+					x.guards = append(x.guards, guard{isMap: isMap, lockKey: key, ref: r, what: strings.Join(strings.Fields(exprString(oe)), "")})
+				}
+			}
+		}
+	}
 	if fc != nil && !fc.ModAll {
 		x.frameOn = true
 		x.alloc0 = st.alloc
